@@ -306,7 +306,9 @@ def main():
         for lens in keys:
             key = [l for l in lens if l > 1] + [1] * rng.randint(0, lens.count(1))
             rng.shuffle(key)
-            classes[tuple(key)] = None if (rng.random() < 0.4 and class_size(n, lens) <= 300) else rng.randint(1, 6)
+            classes[tuple(key)] = None if (rng.random() < 0.4 and class_size(n, lens) <= 300) else rng.choice([0, 1, 2, 3, 6])
+        if all(v == 0 for v in classes.values()):
+            continue  # a definition needs at least one generator
         case = {"n": n, "classes": [[list(k), v] for k, v in classes.items()]}
         ck.case(["conj-multi", n, case["classes"]], True)
         ck.count("conjugacy_classes with several classes")
